@@ -40,6 +40,43 @@ type c20In struct {
 	Lim    []int             `json:"lim,omitempty"` // buf, headers, body, sig
 	Stream []byte            `json:"stream,omitempty"`
 	Tag    string            `json:"tag,omitempty"`
+	// chunk: assertions to sign and stream, reader chunk size (0 = whole), final data delivered together with EOF
+	Sigs    []c20Signed `json:"sigs,omitempty"`
+	Chunk   int         `json:"chunk,omitempty"`
+	EOFData bool        `json:"eofdata,omitempty"`
+}
+
+type c20Signed struct {
+	Type string            `json:"type"`
+	H    map[string]c20Val `json:"h"`
+	Body []byte            `json:"body,omitempty"`
+}
+
+// c20Chop hands out the data n bytes per Read (n <= 0: as much as fits); with eofData the last bytes come together
+// with io.EOF (as testing/iotest.DataErrReader does)
+type c20Chop struct {
+	data    []byte
+	n       int
+	eofData bool
+}
+
+func (c *c20Chop) Read(p []byte) (int, error) {
+	if len(c.data) == 0 {
+		return 0, io.EOF
+	}
+	k := len(p)
+	if c.n > 0 && c.n < k {
+		k = c.n
+	}
+	if k > len(c.data) {
+		k = len(c.data)
+	}
+	copy(p, c.data[:k])
+	c.data = c.data[k:]
+	if c.eofData && len(c.data) == 0 {
+		return k, io.EOF
+	}
+	return k, nil
 }
 
 func (v c20Val) iface() interface{} {
@@ -77,18 +114,37 @@ func c20Bytes(s string) string {
 		return "[]"
 	}
 	var parts []string
+	printable := func(c byte) bool { return c >= 0x20 && c <= 0x7e && c != '"' }
+	runLen := func(i int) int {
+		j := i
+		for j < len(s) && s[j] == s[i] {
+			j++
+		}
+		return j - i
+	}
 	i := 0
 	for i < len(s) {
+		if n := runLen(i); n >= 24 { // long runs of one byte (padding): repeat c n, in pieces of at most 4000
+			for left := n; left > 0; {
+				k := left
+				if k > 4000 {
+					k = 4000
+				}
+				parts = append(parts, fmt.Sprintf("repeat %d%%N %d%%nat", s[i], k))
+				left -= k
+			}
+			i += n
+			continue
+		}
 		j := i
-		printable := func(c byte) bool { return c >= 0x20 && c <= 0x7e && c != '"' }
 		if printable(s[i]) {
-			for j < len(s) && printable(s[j]) {
+			for j < len(s) && printable(s[j]) && runLen(j) < 24 {
 				j++
 			}
 			parts = append(parts, `bs "`+s[i:j]+`"`)
 		} else {
 			var nums []string
-			for j < len(s) && !printable(s[j]) {
+			for j < len(s) && !printable(s[j]) && runLen(j) < 24 {
 				nums = append(nums, strconv.Itoa(int(s[j])))
 				j++
 			}
@@ -313,6 +369,46 @@ func c20Exec(i c20In) vh.Out {
 			tags = append(tags, i.Tag)
 		}
 		return vh.Out{Observed: map[string]interface{}{"results": results}, Coq: coq, NonTrivial: nok > 0, Tags: tags}
+	case "chunk":
+		var encs [][]byte
+		var origs []string
+		for _, sg := range i.Sigs {
+			a, err := c20Sign(sg.Type, sg.H, sg.Body)
+			if err != nil {
+				panic(fmt.Sprintf("chunk case must be signable: %v", err))
+			}
+			_, sig := a.Signature()
+			encs = append(encs, Encode(a))
+			origs = append(origs, "("+c20Map(a.Headers())+", "+c20Bytes(string(a.Body()))+", "+c20Bytes(string(sig))+")")
+		}
+		stream := c20Stream(encs)
+		d := NewDecoderStressed(&c20Chop{data: append([]byte{}, stream...), n: i.Chunk, eofData: i.EOFData}, i.Lim[0], i.Lim[1], i.Lim[2], i.Lim[3])
+		var results []c20Res
+		var items []string
+		timeout := false
+		nok := 0
+		for len(results) < len(encs)+2 {
+			r := c20Call(d.Decode)
+			results = append(results, r)
+			items = append(items, r.coq())
+			if r.Kind == "timeout" {
+				timeout = true
+			}
+			if r.Kind != "ok" {
+				break
+			}
+			nok++
+		}
+		coq := fmt.Sprintf("(CChunk (mkLim %d %d %d %d) [%s] %s %d [%s] %s)", i.Lim[0], i.Lim[1], i.Lim[2], i.Lim[3], strings.Join(origs, "; "),
+			c20Bytes(string(stream)), i.Chunk, strings.Join(items, "; "), vh.CoqBool(timeout))
+		tags := []string{fmt.Sprintf("chunk-decoded-%d-of-%d", nok, len(encs)), "chunk-ends-" + results[len(results)-1].Kind, fmt.Sprintf("chunk-buf-%d", i.Lim[0])}
+		if i.Tag != "" {
+			tags = append(tags, i.Tag)
+		}
+		// the sizes are part of the observation: where the delimiters fall
+		first := encs[0]
+		return vh.Out{Observed: map[string]interface{}{"results": results, "head-end": bytes.Index(first, nlnl), "sig-start": bytes.LastIndex(first, nlnl) + 2,
+			"enc-len": len(first), "stream-len": len(stream)}, Coq: coq, NonTrivial: nok == len(encs), Tags: tags}
 	}
 	panic("unknown kind " + i.Kind)
 }
@@ -511,6 +607,152 @@ func c20Stream(encs [][]byte) []byte {
 	return buf.Bytes()
 }
 
+// c20Padded returns a signable test-only assertion whose header block (distance from the start of the encoding to the
+// first blank line) is exactly headLen bytes, by sizing a padding header; ok=false if headLen is too small
+func c20Padded(r *vh.Rand, headLen int, body []byte) (c20Signed, bool) {
+	mk := func(pad int) c20Signed {
+		h := map[string]c20Val{"authority-id": c20S("canonical"), "primary-key": c20S("k" + r.Str("abc", 1, 2)), "zz-pad": c20S(strings.Repeat("p", pad))}
+		if r.Bool() {
+			h["list"] = c20Val{K: "l", L: []c20Val{c20S("a"), c20S("b\nc")}}
+		}
+		return c20Signed{Type: "test-only", H: h, Body: body}
+	}
+	sg := mk(1)
+	a, err := c20Sign(sg.Type, sg.H, sg.Body)
+	if err != nil {
+		panic(err)
+	}
+	pad := 1 + headLen - bytes.Index(Encode(a), nlnl)
+	if pad < 1 {
+		return sg, false
+	}
+	sg.H["zz-pad"] = c20S(strings.Repeat("p", pad))
+	a, err = c20Sign(sg.Type, sg.H, sg.Body)
+	if err != nil {
+		panic(err)
+	}
+	if got := bytes.Index(Encode(a), nlnl); got != headLen {
+		panic(fmt.Sprintf("padding failed: head %d, wanted %d", got, headLen))
+	}
+	return sg, true
+}
+
+// c20SigLen is the length of a signature as stored (with its final newline); it does not depend on the content
+func c20SigLen() int {
+	a, err := c20Sign("test-only", map[string]c20Val{"authority-id": c20S("a"), "primary-key": c20S("k")}, nil)
+	if err != nil {
+		panic(err)
+	}
+	_, sig := a.Signature()
+	return len(sig)
+}
+
+// streams whose delimiters fall on and around the read boundaries of Decoder.readUntil (initial buffer size B, then
+// doubling), read through readers of every chunking
+func c20Boundary(r *vh.Rand, tier string) []c20In {
+	var ins []c20In
+	big := 1 << 22
+	chunks := func(buf int) (int, bool) {
+		c := []int{0, 1, 2, 3, 7, buf - 1, buf, buf + 1, r.Range(1, 2*buf)}[r.Intn(9)]
+		if c < 0 {
+			c = 0
+		}
+		return c, r.Chance(1, 4)
+	}
+	second := func() c20Signed {
+		typ, h, body := c20Signable(r, true)
+		return c20Signed{Type: typ, H: h, Body: body}
+	}
+	add := func(first c20Signed, buf int, limH, limB, limS int, tag string) {
+		sigs := []c20Signed{first}
+		if r.Bool() { // something after it in the stream, which must not be lost
+			sigs = append(sigs, second())
+		}
+		if r.Chance(1, 3) { // the boundary assertion not in first position
+			sigs[0], sigs[len(sigs)-1] = sigs[len(sigs)-1], sigs[0]
+		}
+		c, e := chunks(buf)
+		ins = append(ins, c20In{Kind: "chunk", Sigs: sigs, Lim: []int{buf, limH, limB, limS}, Chunk: c, EOFData: e, Tag: tag})
+	}
+	// 1. the blank line after the headers at offsets B*2^j - 3 .. B*2^j + 1 (readUntil looks at B, 2B, 4B ... bytes)
+	type bd struct{ buf, boundary int }
+	var bds []bd
+	for _, b := range []int{8, 16, 50, 100} {
+		for sz := b; sz <= 1100; sz *= 2 {
+			if sz >= 180 {
+				bds = append(bds, bd{b, sz})
+			}
+		}
+	}
+	for _, x := range bds {
+		for delta := -3; delta <= 1; delta++ {
+			var body []byte
+			if r.Bool() {
+				body = []byte(r.Str("abc \n", 1, 30))
+			}
+			if sg, ok := c20Padded(r, x.boundary+delta, body); ok {
+				add(sg, x.buf, big, big, big, fmt.Sprintf("chunk-head-boundary-%d%+d", x.boundary, delta))
+			}
+		}
+	}
+	// the production buffer size and its doublings, with the production limits
+	bigB := []int{defaultDecoderBufSize, 2 * defaultDecoderBufSize}
+	if tier == "thorough" {
+		bigB = append(bigB, 4*defaultDecoderBufSize, 8*defaultDecoderBufSize)
+	} else {
+		bigB = append(bigB, 4*defaultDecoderBufSize)
+	}
+	for _, boundary := range bigB {
+		for delta := -3; delta <= 1; delta++ {
+			var body []byte
+			if r.Bool() {
+				body = []byte("body\n\nmore\n")
+			}
+			sg, _ := c20Padded(r, boundary+delta, body)
+			c, e := chunks(defaultDecoderBufSize)
+			ins = append(ins, c20In{Kind: "chunk", Sigs: []c20Signed{sg, second()}, Lim: []int{defaultDecoderBufSize, MaxHeadersSize, MaxBodySize, MaxSignatureSize},
+				Chunk: c, EOFData: e, Tag: fmt.Sprintf("chunk-head-boundary-%d%+d", boundary, delta)})
+		}
+	}
+	// 2. the separator after the signature (and, without a body, the one readUntil meets first after the headers):
+	// buffer sizes B with B*2^j around the signature length
+	sl := c20SigLen()
+	for delta := -3; delta <= 2; delta++ {
+		for _, div := range []int{1, 2, 4, 8} {
+			if (sl+delta)%div != 0 {
+				continue
+			}
+			buf := (sl + delta) / div
+			for _, withBody := range []bool{false, true} {
+				var body []byte
+				if withBody {
+					body = []byte(r.Str("abc \n", 1, 30))
+				}
+				typ, h, _ := c20Signable(r, true)
+				add(c20Signed{Type: typ, H: h, Body: body}, buf, big, big, big, fmt.Sprintf("chunk-sig-boundary-%d/%d", sl+delta, div))
+			}
+		}
+	}
+	// 3. the body: its end (where the next readUntil starts) at and around the boundaries, bodies ending in newlines
+	for _, x := range []bd{{16, 256}, {50, 400}, {100, 400}} {
+		for delta := -2; delta <= 2; delta++ {
+			typ, h, _ := c20Signable(r, true)
+			a, err := c20Sign(typ, h, []byte("x"))
+			if err != nil {
+				panic(err)
+			}
+			headEnd := bytes.Index(Encode(a), nlnl) + 2
+			n := x.boundary + delta - headEnd
+			if n < 2 {
+				continue
+			}
+			body := []byte(strings.Repeat("b", n-1) + r.Pick([]string{"\n", "c"}))
+			add(c20Signed{Type: typ, H: h, Body: body}, x.buf, big, big, big, fmt.Sprintf("chunk-body-boundary-%d%+d", x.boundary, delta))
+		}
+	}
+	return ins
+}
+
 func c20Gen(r *vh.Rand, tier string, n int) []c20In {
 	if n == 0 {
 		n = 400
@@ -633,11 +875,39 @@ func c20Gen(r *vh.Rand, tier string, n int) []c20In {
 		}
 		ins = append(ins, c20In{Kind: "stream", Lim: lim, Stream: stream, Tag: tag})
 	}
+	ins = append(ins, c20Boundary(r, tier)...)
+	// random valid streams through chopped readers
+	for k := 0; k < n/8; k++ {
+		var sigs []c20Signed
+		for j := r.Range(1, 3); j > 0; j-- {
+			typ, h, body := c20Signable(r, true)
+			sigs = append(sigs, c20Signed{Type: typ, H: h, Body: body})
+		}
+		buf := []int{8, 16, 50, 64, 100, 128, 512, 4096}[r.Intn(8)]
+		ins = append(ins, c20In{Kind: "chunk", Sigs: sigs, Lim: []int{buf, 1 << 22, 1 << 22, 1 << 22}, Chunk: r.Range(0, 2*buf), EOFData: r.Chance(1, 4), Tag: "chunk-random"})
+	}
 	for _, bl := range []string{"-1", "-0", "+3", "03", "3", "x", "99999999999999999999", "2097153", "-5", "-60", "-100000", "-9223372036854775808"} {
 		s := "type: test-only\nauthority-id: a\nprimary-key: k\nbody-length: " + bl + "\nsign-key-sha3-384: Jv8_JiHiIzJVcO9M55pPdqSDWUvuhfDIBJUS-3VW7F_idjix7Ffn5qMxB21ZQuij\n\nabc\n\nAXNpZw==\n"
 		ins = append(ins, c20In{Kind: "stream", Lim: []int{4096, MaxHeadersSize, MaxBodySize, MaxSignatureSize}, Stream: []byte(s), Tag: "stream-body-length-" + bl})
 	}
-	return ins
+	// spread the small exhaustive parser cases evenly among the larger ones (the evaluation is sharded by position)
+	var small, large, mixed []c20In
+	for _, in := range ins {
+		if in.Tag == "parse-enum" {
+			small = append(small, in)
+		} else {
+			large = append(large, in)
+		}
+	}
+	for k := 0; k < len(small) || k < len(large); k++ {
+		if k < len(large) {
+			mixed = append(mixed, large[k])
+		}
+		if k < len(small) {
+			mixed = append(mixed, small[k])
+		}
+	}
+	return mixed
 }
 
 func TestVerifC20(t *testing.T) { vh.Run(c20Gen, c20Exec) }
